@@ -13,11 +13,14 @@ import (
 	"time"
 
 	corev1 "k8s.io/api/core/v1"
+	metav1 "k8s.io/apimachinery/pkg/apis/meta/v1"
+	clock "k8s.io/utils/clock/testing"
 	"sigs.k8s.io/controller-runtime/pkg/client"
 
 	v1 "sigs.k8s.io/karpenter/pkg/apis/v1"
 	"sigs.k8s.io/karpenter/pkg/controllers/disruption"
 	"sigs.k8s.io/karpenter/pkg/state/cost"
+	"sigs.k8s.io/karpenter/pkg/test"
 
 	"verifharness/kit"
 )
@@ -55,17 +58,39 @@ func (p *passValidator) Validate(_ context.Context, cmd disruption.Command, _ ti
 type delayedValidator struct {
 	inner   disruption.Validator
 	between func()
-	prop    []disruption.Command
+	// with a clock, the validator really waits for its validation period on the FakeClock; between
+	// runs while it is blocked and must end by moving the clock past the period
+	clk  *clock.FakeClock
+	out  []disruption.Command
+	prop []disruption.Command
 	// the re-simulation of validateCommand disagreed with the command (not a budget matter)
 	schedulingRejected bool
 }
 
-func (d *delayedValidator) Validate(ctx context.Context, cmd disruption.Command, _ time.Duration) (disruption.Command, error) {
+func (d *delayedValidator) Validate(ctx context.Context, cmd disruption.Command, period time.Duration) (disruption.Command, error) {
 	d.prop = append(d.prop, cmd)
-	if d.between != nil {
-		d.between()
+	var out disruption.Command
+	var err error
+	if d.clk != nil && d.between != nil {
+		done := make(chan struct{})
+		go func() {
+			defer close(done)
+			for !d.clk.HasWaiters() {
+				time.Sleep(200 * time.Microsecond)
+			}
+			d.between()
+		}()
+		out, err = d.inner.Validate(ctx, cmd, period)
+		<-done
+	} else {
+		if d.between != nil {
+			d.between()
+		}
+		out, err = d.inner.Validate(ctx, cmd, 0)
 	}
-	out, err := d.inner.Validate(ctx, cmd, 0)
+	if err == nil {
+		d.out = append(d.out, out)
+	}
 	var se *disruption.SchedulingValidationError
 	if err != nil && errors.As(err, &se) {
 		d.schedulingRejected = true
@@ -178,9 +203,24 @@ func genWorld(r *kit.Rand, m int, nPools int) ([]jPool, []jNode, map[int]bool) {
 			if r.Chance(1, 2) {
 				p.Limit = ptr(r.Range(1, 8))
 			}
+		} else {
+			// the optional NodePool fields the methods read
+			switch r.Intn(12) {
+			case 0, 1:
+				p.Policy = string(v1.ConsolidationPolicyBalanced)
+			case 2:
+				p.Policy = string(v1.ConsolidationPolicyWhenEmpty)
+			case 3:
+				p.NoConsolidation = true
+			case 4:
+				p.NoInstanceTypes = i > 1
+			}
 		}
 		pools = append(pools, p)
 	}
+	// one world in four is tight: no spare (anchor) capacity, so pods can only move to other
+	// candidates or to a replacement node (replace decisions, commands with replacements)
+	tight := m != mStaticDrift && m != mEmptiness && r.Chance(1, 4)
 	if m != mStaticDrift {
 		pools = append(pools, jPool{ID: 9, Name: poolName(9)})
 	}
@@ -193,7 +233,7 @@ func genWorld(r *kit.Rand, m int, nPools int) ([]jPool, []jNode, map[int]bool) {
 		}
 		total := r.Range(0, 6)
 		if p.Static {
-			total = r.Range(0, p.Replicas+1)
+			total = r.Range(1, p.Replicas+1)
 		}
 		for k := 0; k < total; k++ {
 			n := jNode{ID: id, Pool: p.ID, Managed: true, HasNode: true, Init: true, Ready: "True"}
@@ -216,18 +256,29 @@ func genWorld(r *kit.Rand, m int, nPools int) ([]jPool, []jNode, map[int]bool) {
 				if n.Pods > 0 && r.Chance(1, 4) {
 					n.Pinned = true
 				}
+				if tight {
+					n.Pods, n.BigPods, n.Pinned = 1, true, false
+				}
 			case mStaticDrift:
 				n.Drifted = r.Chance(4, 5)
 				n.Pods = r.Intn(2)
 			}
-			// a few already unhealthy / disrupting nodes
-			switch r.Intn(14) {
+			// a few already unhealthy / disrupting nodes, and states that keep a node out of candidacy
+			switch r.Intn(20) {
 			case 0:
 				n.Ready = "False"
 			case 1:
 				n.Marked = true
 			case 2:
 				n.Deleting = true
+			case 3:
+				n.NotConsolidatable = true
+			case 4:
+				n.BufferPods = true
+			case 5:
+				n.Init, n.Unregistered = false, true
+			case 6:
+				n.Init = false
 			}
 			if n.Pinned && n.Pods > 0 {
 				pinned[id] = true
@@ -238,7 +289,7 @@ func genWorld(r *kit.Rand, m int, nPools int) ([]jPool, []jNode, map[int]bool) {
 			id++
 		}
 	}
-	if m != mStaticDrift {
+	if m != mStaticDrift && !tight {
 		for k := 0; k < 2; k++ {
 			nodes = append(nodes, jNode{ID: 900 + k, Pool: 9, Managed: true, HasNode: true, Init: true, Ready: "True", Anchor: true})
 		}
@@ -415,6 +466,8 @@ type jEvent struct {
 
 // apply performs the event in the real world (API + cluster state, the way informers deliver it).
 func (w *world) apply(e jEvent) {
+	w.faults.suspended = true
+	defer func() { w.faults.suspended = false }()
 	switch e.Kind {
 	case "ready":
 		known, ok := w.nodes[e.Node]
@@ -449,6 +502,13 @@ func (w *world) apply(e jEvent) {
 		w.setBudgets(e.Pool, e.Budgets)
 	case "add":
 		w.addNode(*e.NewNode)
+	case "pending-claim":
+		// the provisioner created a NodeClaim that is not launched yet: cluster state is not synced
+		nc := test.NodeClaim(v1.NodeClaim{ObjectMeta: metav1.ObjectMeta{Name: "pending-claim", Labels: map[string]string{v1.NodePoolLabelKey: poolName(1)}}})
+		nc.Status.ProviderID = ""
+		w.cluster.UpdateNodeClaim(nc)
+	case "launched":
+		w.cluster.DeleteNodeClaim("pending-claim")
 	}
 }
 
@@ -595,6 +655,15 @@ type recMethod struct {
 	cands   []*disruption.Candidate
 	cmds    []disruption.Command
 	called  bool
+	err     error
+	before  func() // runs just before the inner ComputeCommands (snapshots what the method will read)
+}
+
+// SetNodePoolTotals keeps the wrapped method visible as a NodePoolTotalsSetter (balanced scoring).
+func (m *recMethod) SetNodePoolTotals(t map[string]disruption.NodePoolTotals) {
+	if s, ok := m.Method.(disruption.NodePoolTotalsSetter); ok {
+		s.SetNodePoolTotals(t)
+	}
 }
 
 func (m *recMethod) ComputeCommands(ctx context.Context, mp map[string]int, cs ...*disruption.Candidate) ([]disruption.Command, error) {
@@ -603,10 +672,29 @@ func (m *recMethod) ComputeCommands(ctx context.Context, mp map[string]int, cs .
 	for k, v := range mp {
 		m.mapping[k] = v
 	}
+	if m.before != nil {
+		m.before()
+	}
 	cmds, err := m.Method.ComputeCommands(ctx, mp, cs...)
 	m.cands = cs // sorted in place by the method
 	m.cmds = cmds
+	m.err = err
 	return cmds, err
+}
+
+type methodSlot struct {
+	meth disruption.Method
+	dv   *delayedValidator
+}
+
+// wouldSelect: some empty candidate's pool has budget left (Emptiness proposes unless it short-circuits).
+func wouldSelect(jc []jCand, mp map[string]int, w *world) bool {
+	for _, c := range jc {
+		if c.Empty && mp[poolName(c.Pool)] > 0 {
+			return true
+		}
+	}
+	return false
 }
 
 type roundState struct {
@@ -651,6 +739,9 @@ func gEnv(e jEvent, now int64) string {
 // envTerms renders an event for the model. After a clock move the schedules' (next, last)
 // descriptions are re-supplied for the new instant through EBudgets (a no-op in the real world).
 func (s *roundState) envTerms(e jEvent) []string {
+	if e.Kind == "pending-claim" || e.Kind == "launched" {
+		return nil // not a state the budget accounting reads; the controller just waits for the sync
+	}
 	now := s.w.clk.Now().UnixNano()
 	out := []string{gEnv(e, now)}
 	if e.Kind == "clock" {
@@ -686,16 +777,18 @@ func (s *roundState) applyEvent(e jEvent) {
 }
 
 type jOp struct {
-	Op       string         `json:"op"`
-	Method   string         `json:"method,omitempty"`
-	Event    *jEvent        `json:"event,omitempty"`
-	Between  []jEvent       `json:"events_during_validation,omitempty"`
-	Cands    []jCand        `json:"candidates,omitempty"`
-	Proposed []int          `json:"proposed,omitempty"`
-	Mapping  map[string]int `json:"impl_mapping,omitempty"`
-	NewQueue []int          `json:"impl_newly_queued"`
-	IDs      []int          `json:"command,omitempty"`
-	OK       bool           `json:"ok,omitempty"`
+	Op          string         `json:"op"`
+	Method      string         `json:"method,omitempty"`
+	Event       *jEvent        `json:"event,omitempty"`
+	Between     []jEvent       `json:"events_during_validation,omitempty"`
+	Cands       []jCand        `json:"candidates,omitempty"`
+	Proposed    []int          `json:"proposed,omitempty"`
+	Mapping     map[string]int `json:"impl_mapping,omitempty"`
+	Fault       string         `json:"injected_fault,omitempty"`
+	StartFailed []int          `json:"start_failed,omitempty"`
+	NewQueue    []int          `json:"impl_newly_queued"`
+	IDs         []int          `json:"command,omitempty"`
+	OK          bool           `json:"ok,omitempty"`
 }
 
 type caseR struct {
@@ -730,7 +823,14 @@ func scopedBudgets(own v1.DisruptionReason, ownVal int, window bool) []jBudget {
 
 func genRoundBudgets(r *kit.Rand) []jBudget {
 	var bs []jBudget
-	switch r.Intn(8) {
+	switch r.Intn(9) {
+	case 8: // a budget that cannot be read: the pool is closed for every reason
+		bs = append(bs, jBudget{Nodes: "5"}, kit.Pick(r, []jBudget{
+			{Nodes: "1", Schedule: ptr("61 * * * *"), Duration: ptr("10m")},
+			{Nodes: "lots"},
+			{Nodes: "1", Duration: ptr("10m")},
+			{Nodes: "10 %", Reasons: []string{string(kit.Pick(r, reasonNames))}}}))
+		return bs
 	case 5, 6: // reason-scoped: every reason has its own value
 		return scopedBudgets(kit.Pick(r, reasonNames), r.Range(0, 2), false)
 	case 7: // ... and a window that blocks exactly one reason opens at 11:00
@@ -750,14 +850,14 @@ func genRoundBudgets(r *kit.Rand) []jBudget {
 }
 
 func runRounds(c *kit.Ctx, r *kit.Rand, nOps int) {
-	m0 := kit.Pick(r, []int{mEmptiness, mDrift, mMulti, mSingle})
+	m0 := kit.Pick(r, []int{mEmptiness, mDrift, mMulti, mSingle, mEmptiness, mDrift, mMulti, mSingle, mStaticDrift, mStaticDrift})
 	pools, nodes, pinned := genWorld(r, m0, r.Range(1, 2))
 	for i := range pools {
 		if pools[i].ID != 9 {
 			pools[i].Budgets = genRoundBudgets(r)
 		}
 	}
-	if r.Chance(1, 4) {
+	if m0 != mStaticDrift && r.Chance(1, 4) {
 		// reason-scoped budgets whose tightest entry is the first method's own reason
 		c.Count("R:world=own-reason-tightest")
 		for i := range pools {
@@ -766,7 +866,7 @@ func runRounds(c *kit.Ctx, r *kit.Rand, nOps int) {
 			}
 		}
 	}
-	if r.Chance(1, 3) {
+	if m0 != mStaticDrift && r.Chance(1, 3) {
 		// a pool whose percentage budget is at a round-up boundary, plus nodes that must not be in
 		// the percentage base (registered and Ready but not initialized, instance terminating)
 		c.Count("R:world=percentage-boundary")
@@ -811,7 +911,10 @@ func runRounds(c *kit.Ctx, r *kit.Rand, nOps int) {
 	var jops []jOp
 	accepted := 0
 	cmdsInFlight := [][]int{}
+	methods := map[int]*methodSlot{}
+	reserved := map[int]int{} // static pools: node counts reserved by StaticDrift (never released here)
 	nextID := 500
+	pendingClaim := false
 	queued := func() map[int]bool {
 		out := map[int]bool{}
 		for pid := range w.queue.ProviderIDToCommand {
@@ -831,7 +934,13 @@ func runRounds(c *kit.Ctx, r *kit.Rand, nOps int) {
 		if len(ids) == 0 {
 			return jEvent{Kind: "clock", Time: w.clk.Now().Add(time.Second).UnixNano()}
 		}
-		switch r.Intn(8) {
+		switch r.Intn(9) {
+		case 8:
+			pendingClaim = !pendingClaim
+			if pendingClaim {
+				return jEvent{Kind: "pending-claim"}
+			}
+			return jEvent{Kind: "launched"}
 		case 0, 1:
 			return jEvent{Kind: "ready", Node: kit.Pick(r, ids), Ready: r.Chance(1, 3)}
 		case 2:
@@ -866,31 +975,119 @@ func runRounds(c *kit.Ctx, r *kit.Rand, nOps int) {
 		case x < 8:
 			m := m0
 			if r.Chance(1, 4) {
-				m = kit.Pick(r, []int{mEmptiness, mDrift, mMulti, mSingle})
+				m = r.Intn(5) // also methods the world has no candidates for (static pools and emptiness, ...)
 			}
 			var between []jEvent
 			var betweenTerms []string
-			dv := &delayedValidator{}
+			dv := &delayedValidator{clk: w.clk}
 			var cur []jCand
 			var rec *recMethod
-			if m != mDrift {
+			if m != mDrift && m != mStaticDrift {
 				for j := r.Intn(3); j > 0; j-- {
-					between = append(between, genEnv())
+					if e := genEnv(); e.Kind != "clock" {
+						between = append(between, e)
+					}
 				}
+				// the validation delay itself: the validator waits on the clock; it moves by 15 s, or
+				// further (to a window edge)
+				target := w.clk.Now().Add(15 * time.Second)
+				if e := genEnv(); e.Kind == "clock" && time.Unix(0, e.Time).After(target) {
+					target = time.Unix(0, e.Time)
+				}
+				between = append(between, jEvent{Kind: "clock", Time: target.UnixNano()})
 				dv.between = func() {
-					for _, e := range between {
+					for _, e := range between[:len(between)-1] {
 						s.applyEvent(e)
 						betweenTerms = append(betweenTerms, s.envTerms(e)...)
 					}
-					// the candidates as the validator is about to see them
+					// the candidates as the validator is about to see them (nothing but the clock moves after this)
+					w.faults.suspended = true
 					cur = w.toJCands(w.candidates(rec), pinned)
+					w.faults.suspended = false
+					e := between[len(between)-1]
+					s.applyEvent(e)
+					betweenTerms = append(betweenTerms, s.envTerms(e)...)
 				}
 			}
-			rec = &recMethod{Method: w.newMethod(m, dv, true)}
-			ctrl := disruption.NewController(w.clk, w.c, w.prov, w.cp, w.recorder, w.cluster, w.queue, clusterCost, disruption.WithMethods(rec))
-			if _, err := ctrl.Reconcile(w.ctx); err != nil {
-				panic(fmt.Sprintf("Reconcile(%s): %v", methodNames[m], err))
+			// methods are kept per world, as in the running controller (the consolidation methods cache
+			// "nothing to do" until the cluster changes)
+			if methods[m] == nil || r.Chance(1, 3) {
+				methods[m] = &methodSlot{dv: &delayedValidator{clk: w.clk}}
+				methods[m].meth = w.newMethod(m, methods[m].dv, true)
 			}
+			slot := methods[m]
+			slot.dv.between, slot.dv.prop, slot.dv.out, slot.dv.schedulingRejected = dv.between, nil, nil, false
+			dv = slot.dv
+			rec = &recMethod{Method: slot.meth}
+			choice := ""
+			if m == mStaticDrift {
+				rec.before = func() {
+					var groups []string
+					for _, p := range s.pools {
+						a, d, pd := w.cluster.NodePoolState.GetNodeCount(p.Name)
+						groups = append(groups, fmt.Sprintf("(%s, mkCounts %s %s %s %s)", kit.GZ(int64(p.ID)), kit.GZ(int64(a)), kit.GZ(int64(d)), kit.GZ(int64(pd)), kit.GZ(int64(reserved[p.ID]))))
+					}
+					choice = "(ChStatic " + kit.GList(groups) + ")"
+				}
+			}
+			// faults: an API call of this reconcile fails
+			fault := ""
+			fk := r.Intn(16)
+			if (m == mStaticDrift || m == mDrift) && r.Chance(1, 6) {
+				fk = 2 // these methods launch replacements
+			}
+			switch fk {
+			case 0:
+				w.faults.listNodePools = r.Range(1, 6)
+				fault = fmt.Sprintf("list-nodepools-x%d", w.faults.listNodePools)
+			case 1, 3:
+				// the disruption taint cannot be set on some nodes that could be candidates
+				var live []int
+				for _, id := range s.order {
+					if n := s.nodes[id]; n.Init && n.HasNode && !n.Marked && !n.Deleting && !n.Anchor {
+						live = append(live, id)
+					}
+				}
+				for k := 0; k < 2 && len(live) > 0; k++ {
+					id := kit.Pick(r, live)
+					w.faults.patchNode[fmt.Sprintf("node-%03d", id)] = 10 // more than the client-side retries
+					fault = "patch-node"
+				}
+				w.faults.conflict = r.Chance(1, 2)
+			case 2:
+				w.faults.createClaim = 1
+				fault = "create-nodeclaim"
+			}
+			ctrl := disruption.NewController(w.clk, w.c, w.prov, w.cp, w.recorder, w.cluster, w.queue, clusterCost, disruption.WithMethods(rec))
+			_, rerr := ctrl.Reconcile(w.ctx)
+			fired := false
+			if fault != "" {
+				fired = (fault[:4] == "list" && w.faults.listNodePools == 0) || (fault == "create-nodeclaim" && w.faults.createClaim == 0) ||
+					(fault[:5] == "patch" && func() bool {
+						for _, v := range w.faults.patchNode {
+							if v < 10 {
+								return true
+							}
+						}
+						return false
+					}())
+				if fault == "patch-node" && w.faults.conflict {
+					fault = "patch-node-conflict"
+				}
+				w.faults.listNodePools, w.faults.createClaim, w.faults.patchNode, w.faults.conflict = 0, 0, map[string]int{}, false
+			}
+			if rerr != nil && fault == "" {
+				panic(fmt.Sprintf("Reconcile(%s): %v", methodNames[m], rerr))
+			}
+			if fault != "" {
+				c.Count(fmt.Sprintf("R:fault=%s,fired=%v,error=%v", map[bool]string{false: strings.SplitN(fault, "-x", 2)[0][:4], true: "patch-conflict"}[fault == "patch-node-conflict"], fired, rerr != nil))
+			}
+			// the informers deliver what the reconcile wrote (taints, conditions)
+			w.faults.suspended = true
+			for _, id := range s.order {
+				w.refresh(id)
+			}
+			w.faults.suspended = false
 			after := queued()
 			var newq []int
 			for id := range after {
@@ -906,6 +1103,30 @@ func runRounds(c *kit.Ctx, r *kit.Rand, nOps int) {
 			} else {
 				proposed = cmdIDs(rec.cmds)
 			}
+			// what StartCommand was asked to start
+			final := cmdIDs(rec.cmds)
+			if m != mDrift && m != mStaticDrift {
+				final = cmdIDs(dv.out)
+			}
+			var startfail []int
+			if fault != "" {
+				inq := map[int]bool{}
+				for _, id := range newq {
+					inq[id] = true
+				}
+				for _, id := range final {
+					if !inq[id] {
+						startfail = append(startfail, id)
+					}
+				}
+			}
+			if m == mStaticDrift {
+				for _, cmd := range rec.cmds {
+					for _, cd := range cmd.Candidates {
+						reserved[w.poolID(cd.NodePool.Name)]++
+					}
+				}
+			}
 			if m == mSingle || m == mDrift {
 				for i := range jc {
 					jc[i].SimOK = len(proposed) > 0 && jc[i].Node == proposed[0]
@@ -915,13 +1136,45 @@ func runRounds(c *kit.Ctx, r *kit.Rand, nOps int) {
 					return len(proposed) > 0 && jc[i].Node == proposed[0] && jc[j].Node != proposed[0]
 				})
 			}
+			switch {
+			case m == mStaticDrift && choice != "":
+			case m == mEmptiness && rec.called && len(proposed) == 0 && wouldSelect(jc, rec.mapping, w):
+				// Emptiness returned early although an empty candidate had budget: its "already consolidated" cache
+				choice = "ChSkip"
+				c.Count("R:MEmptiness:skipped-as-consolidated")
+			case rerr != nil && len(final) == 0:
+				// the reconcile failed before anything was handed to the queue
+				choice = "ChSkip"
+			default:
+				choice = fmt.Sprintf("(ChK %d)", len(proposed))
+			}
+			if m == mStaticDrift && choice == "" {
+				choice = "(ChStatic [])"
+			}
 			for _, id := range newq {
 				s.nodes[id].Marked = true
 			}
+			// one queue entry per command (static drift starts several commands at once)
+			byCmd := map[*disruption.Command][]int{}
+			for _, id := range newq {
+				cmd := w.queue.ProviderIDToCommand[providerID(id)]
+				byCmd[cmd] = append(byCmd[cmd], id)
+			}
+			for _, id := range newq {
+				if ids, ok := byCmd[w.queue.ProviderIDToCommand[providerID(id)]]; ok && ids[0] == id {
+					cmdsInFlight = append(cmdsInFlight, ids)
+					if len(w.queue.ProviderIDToCommand[providerID(id)].Replacements) > 0 {
+						c.Count("R:command=with-replacement")
+					} else {
+						c.Count("R:command=delete-only")
+					}
+				}
+			}
 			if len(newq) > 0 {
 				accepted++
-				cmdsInFlight = append(cmdsInFlight, newq)
 				c.Count("R:" + methodNames[m] + ":command-accepted")
+			} else if len(startfail) > 0 {
+				c.Count("R:" + methodNames[m] + ":start-failed")
 			} else if len(proposed) > 0 && dv.schedulingRejected {
 				c.Count("R:" + methodNames[m] + ":proposal-rejected-by-re-simulation")
 			} else if len(proposed) > 0 {
@@ -931,17 +1184,34 @@ func runRounds(c *kit.Ctx, r *kit.Rand, nOps int) {
 			} else {
 				c.Count("R:" + methodNames[m] + ":no-candidates")
 			}
-			gops = append(gops, fmt.Sprintf("(ODisrupt %s %s (ChK %d) %s %s %s [] %s, %s)", methodNames[m], kit.GListOf(jc, gCand), len(proposed), kit.GBool(!dv.schedulingRejected),
-				kit.GList(betweenTerms), kit.GListOf(cur, gCand), kit.GListOf(cur, gCand), gInts(newq)))
-			jops = append(jops, jOp{Op: "disrupt", Method: methodNames[m], Between: between, Cands: jc, Proposed: proposed, NewQueue: newq, Mapping: rec.mapping})
+			if len(startfail) > 0 && len(newq) > 0 {
+				c.Count("R:start=partially-marked")
+			}
+			gops = append(gops, fmt.Sprintf("(ODisrupt %s %s %s %s %s %s [] %s %s, %s)", methodNames[m], kit.GListOf(jc, gCand), choice, kit.GBool(!dv.schedulingRejected),
+				kit.GList(betweenTerms), kit.GListOf(cur, gCand), kit.GListOf(cur, gCand), gInts(startfail), gInts(newq)))
+			jops = append(jops, jOp{Op: "disrupt", Method: methodNames[m], Between: between, Cands: jc, Proposed: proposed, NewQueue: newq, Mapping: rec.mapping, Fault: fault, StartFailed: startfail})
 		case x < 9 && len(cmdsInFlight) > 0:
 			// the queue finishes a command (successfully if it needs no replacement, else it times out)
 			i := r.Intn(len(cmdsInFlight))
 			ids := cmdsInFlight[i]
 			cmdsInFlight = append(cmdsInFlight[:i], cmdsInFlight[i+1:]...)
 			cmd := w.queue.ProviderIDToCommand[providerID(ids[0])]
-			ok := cmd != nil && len(cmd.Replacements) == 0 && r.Chance(3, 4)
+			ok := cmd != nil && r.Chance(3, 4)
 			if cmd != nil {
+				if ok {
+					// the replacements come up: the lifecycle controller marks them Initialized
+					for _, rp := range cmd.Replacements {
+						nc := &v1.NodeClaim{}
+						if err := w.c.Get(w.ctx, client.ObjectKey{Name: rp.Name}, nc); err != nil {
+							ok = false
+							continue
+						}
+						nc.StatusConditions().SetTrue(v1.ConditionTypeInitialized)
+						if err := w.c.Status().Update(w.ctx, nc); err != nil {
+							panic(err)
+						}
+					}
+				}
 				if !ok {
 					// let the command time out: the queue then gives up and un-marks the candidates
 					e := jEvent{Kind: "clock", Time: w.clk.Now().Add(2 * time.Hour).UnixNano()}
@@ -981,6 +1251,18 @@ func runRounds(c *kit.Ctx, r *kit.Rand, nOps int) {
 				w.refresh(id)
 				s.nodes[id].Marked = false
 			}
+			pods := &corev1.PodList{}
+			if err := w.c.List(w.ctx, pods); err != nil {
+				panic(err)
+			}
+			for i := range pods.Items {
+				if err := w.cluster.UpdatePod(w.ctx, &pods.Items[i]); err != nil {
+					panic(err)
+				}
+			}
+			w.buffer = map[string]int{}
+			methods = map[int]*methodSlot{}
+			reserved = map[int]int{}
 			cmdsInFlight = nil
 			gops = append(gops, "(ORestart, [])")
 			jops = append(jops, jOp{Op: "restart"})
